@@ -10,7 +10,7 @@ import (
 )
 
 func main() {
-	prog, err := core.Load("/repo", "", nil)
+	prog, err := core.Load(repoDir(), "", nil)
 	if err != nil {
 		panic(err)
 	}
@@ -21,7 +21,15 @@ func main() {
 			an.AnalyzeRoot(fn, obl.RootOpts{NonNilParams: true})
 		}
 	}
+	fmt.Println("warnings:", an.Warnings)
 	for _, o := range an.Obligations() {
 		fmt.Printf("%s %s failed=%d/%d %s\n", o.Kind, o.Key(core.FuncName), o.Failed, o.Contexts, o.Why)
 	}
+}
+
+func repoDir() string {
+	if d := os.Getenv("VERIF_REPO"); d != "" {
+		return d
+	}
+	return "/repo"
 }
